@@ -4,7 +4,7 @@
    MTfit/algorithms/base.py by bit-exact execution against the real generators fed with recorded draws. *)
 From Coq Require Import Reals Lra.
 From MTV.Model Require Import Sampling.
-From MTV.Proofs Require Import C08_sampling.
+From MTV.Proofs Require Import C08_sampling C08_rotation.
 Open Scope R_scope.
 
 (* full moment tensors: unit six-vectors *)
@@ -35,6 +35,34 @@ Theorem C08_assembled_tensor_pattern : forall l a b c,
   r_sumsq6 m = 1 /\ apply33 m a = smul (l0 / n) a /\ apply33 m b = smul (l1 / n) b /\ apply33 m c = smul (l2 / n) c.
 Proof. exact assembled_tensor. Qed.
 Print Assumptions C08_assembled_tensor_pattern.
+
+(* one whole double-couple / CLVD sample, the two stages composed: for every pair of non-parallel vector draws (and any
+   unit-normalisable eigenvalue triple) the returned six-vector is unit and has the eigenvalue pattern on the axes that
+   the construction made from those draws *)
+Theorem C08_random_type_sample : forall l ar x,
+  0 < r_sumsq3 ar -> 0 < r_sumsq3 (r_cross (r_normalise3 ar) x) -> 0 < r_sumsq3 l ->
+  let m := r_random_type l ar x in let '(a, b, c) := r_triad ar x in
+  let '(l0, l1, l2) := l in let n := sqrt (r_sumsq3 l) in
+  r_sumsq6 m = 1 /\ apply33 m a = smul (l0 / n) a /\ apply33 m b = smul (l1 / n) b /\ apply33 m c = smul (l2 / n) c.
+Proof. exact random_type_sample. Qed.
+Print Assumptions C08_random_type_sample.
+
+(* uniformly random orientation: the axes commute with every proper rotation applied to both vector draws (for all
+   draws, no hypothesis) ... *)
+Theorem C08_triad_rotation_equivariant : forall Q ar x, is_rotation Q ->
+  r_triad (rapply Q ar) (rapply Q x) = let '(a, b, c) := r_triad ar x in (rapply Q a, rapply Q b, rapply Q c).
+Proof. exact triad_equivariant. Qed.
+Print Assumptions C08_triad_rotation_equivariant.
+
+(* ... and the joint density of the two draws (six independent standard normals) is unchanged by that rotation, so the
+   law of the axes is invariant under every rotation of space *)
+Theorem C08_axis_draws_rotation_invariant : forall Q ar x, is_rotation Q ->
+  axis_draw_density (rapply Q ar) (rapply Q x) = axis_draw_density ar x.
+Proof. exact axis_draw_density_rotation_invariant. Qed.
+Print Assumptions C08_axis_draws_rotation_invariant.
+
+Example C08_rotation_nonvacuous : is_rotation ((0, -1, 0), (1, 0, 0), (0, 0, 1)).
+Proof. exact quarter_turn_is_rotation. Qed.
 
 Example C08_nonvacuous : 0 < r_sumsq6 (1, 0, 0, 0, 0, 2) /\ 0 < r_sumsq3 (1, 2, 3).
 Proof. unfold r_sumsq6, r_sumsq3, sumsq6, sumsq3. split; lra. Qed.
